@@ -1,6 +1,10 @@
 //! oq3v: conformance harness binding the TLA+ specifications under /verif/spec to the real
 //! openqasm3_parser crates.  It renders, drives, projects and compares; expected values and
 //! allowed sets come from TLC.
+mod dbg;
+mod gating;
+mod lex;
+mod pipe;
 mod symtab;
 mod types;
 mod util;
@@ -16,6 +20,10 @@ fn main() {
         "symtab-walk" => symtab::walk(rest),
         "symtab-record" => symtab::record(rest),
         "types-table" => types::table(rest),
+        "probe" => pipe::probe(rest),
+        "gating-cases" => gating::cases(rest),
+        "lex-cases" => lex::cases(rest),
+        "lex-exhaustive" => lex::exhaustive(rest),
         other => {
             eprintln!("unknown subcommand {other}");
             std::process::exit(2);
